@@ -39,7 +39,7 @@ static int split(char *line)
 static int hv(int c) { return c <= '9' ? c - '0' : (c | 32) - 'a' + 10; }
 static unsigned char *unhex(const char *s, size_t *n)
 {
-    size_t l = strcmp(s, "-") ? strlen(s) / 2 : 0;
+    size_t l = (strcmp(s, "-") && strcmp(s, "_")) ? strlen(s) / 2 : 0;      /* "-" = absent, "_" = the empty string */
     unsigned char *b = (unsigned char *)calloc(l + 8, 1);
     for (size_t i = 0; i < l; i++) b[i] = (unsigned char)(hv(s[2 * i]) * 16 + hv(s[2 * i + 1]));
     if (n) *n = l;
@@ -164,7 +164,7 @@ static int do_call(void)
     parse_path(W[2]);
     char *name = unhexs(W[3]);
     int ni; long long *I = csv(W[4], &ni);
-    char *strs[8]; int ns = 0;
+    char *strs[8] = {"", "", "", "", "", "", "", ""}; int ns = 0;
     if (strcmp(W[5], "-")) {
         char *c = strdup(W[5]);
         for (char *p = strtok(c, ";"); p && ns < 8; p = strtok(NULL, ";")) strs[ns++] = unhexs(p);
